@@ -5,7 +5,7 @@ from props import arbgen, arbprop
 PROP = "C01"
 PROPS_FILES = ["Nic/Props/C01.lean", "Nic/Props/TieArb.lean"]
 # Go functions translated from /repo on every run (tools/gofn) and proved equal to the model in the Tie file above
-TIE_FUNCS = ['internal/k8s/configuration.go:chooseObjectMetaWinner', 'internal/k8s/configuration.go:compareObjectMetas', 'internal/k8s/configuration.go:compareObjectMetasWithAnnotations', 'internal/k8s/configuration.go:getResourceKey', 'internal/k8s/configuration.go:getResourceKeyWithKind', 'internal/k8s/utils.go:isMinion', 'internal/k8s/utils.go:isMaster']
+TIE_FUNCS = ['internal/k8s/configuration.go:chooseObjectMetaWinner', 'internal/k8s/configuration.go:compareObjectMetas', 'internal/k8s/configuration.go:compareObjectMetasWithAnnotations', 'internal/k8s/configuration.go:getResourceKey', 'internal/k8s/configuration.go:getResourceKeyWithKind', 'internal/k8s/utils.go:isMinion', 'internal/k8s/utils.go:isMaster', 'pkg/apis/configuration/validation/virtualserver.go:isRegexOrExactMatch', 'pkg/apis/configuration/validation/globalconfiguration.go:generatePortProtocolKey']
 HARNESS = "vh-k8s"
 RULE = ("histories (2..12 ops; thorough: up to 30 and all permutations of short ones) of add/update/delete/invalidate/class-change "
         "events over regular/master/minion/challenge Ingresses, VirtualServers, VirtualServerRoutes, TransportServers (passthrough, TCP, UDP) "
